@@ -76,11 +76,12 @@ type Spec struct {
 	Order       []string
 	Pures       map[string]*PureFunc
 	Locks       []*LockInv
-	Fields      map[string]string // "Type.field" -> class (immutable, atomic, config, racy, monotone)
-	TokenTables map[string]string // "Type.field" (a map field) -> token ghost field
-	TokenSlots  map[string]string // "Type.field" -> ghost key field (optional)
-	Axioms      []*Clause         // assumed facts about package-level state (listed as assumptions)
-	Observes    map[string]string // "Type.field" -> ghost flag set when the field is read as true
+	Fields      map[string]string   // "Type.field" -> class (immutable, atomic, config, racy, monotone)
+	TokenTables map[string]string   // "Type.field" (a map field) -> token ghost field
+	TokenSlots  map[string]string   // "Type.field" -> ghost key field (optional)
+	FieldProps  map[string][]string // "Type.field" -> property tags of the obligations its class generates
+	Axioms      []*Clause           // assumed facts about package-level state (listed as assumptions)
+	Observes    map[string]string   // "Type.field" -> ghost flag set when the field is read as true
 	Lemmas      []*FuncSpec
 	File        string
 	Trusted     []string
@@ -285,6 +286,16 @@ func ParseSpec(path string) (*Spec, error) {
 			addClause(&Clause{Kind: "ghostat", Block: head, Ord: ord, Text: body, Expr: re, Lhs: le, Line: rc.line})
 		case "tokentable":
 			// tokentable Type.field tok : storing a value into this map field hands its token to the table
+			if k := strings.LastIndex(rest, "[C"); k > 0 && strings.HasSuffix(strings.TrimSpace(rest), "]") {
+				r2 := strings.TrimSpace(rest)
+				if sp.FieldProps == nil {
+					sp.FieldProps = map[string][]string{}
+				}
+				if f0 := strings.Fields(rest); len(f0) > 0 {
+					sp.FieldProps[f0[0]] = strings.Fields(r2[k+1 : len(r2)-1])
+				}
+				rest = strings.TrimSpace(r2[:k])
+			}
 			fs := strings.Fields(rest)
 			if len(fs) == 2 || len(fs) == 3 {
 				if sp.TokenTables == nil {
@@ -355,7 +366,16 @@ func ParseSpec(path string) (*Spec, error) {
 			// field Type.f: class
 			parts := strings.SplitN(rest, ":", 2)
 			if len(parts) == 2 {
-				sp.Fields[strings.TrimSpace(parts[0])] = strings.TrimSpace(parts[1])
+				cls := strings.TrimSpace(parts[1])
+				// optional trailing property tags: `field T.f: owned tok [C02 C19]`
+				if k := strings.LastIndex(cls, "[C"); k > 0 && strings.HasSuffix(cls, "]") {
+					if sp.FieldProps == nil {
+						sp.FieldProps = map[string][]string{}
+					}
+					sp.FieldProps[strings.TrimSpace(parts[0])] = strings.Fields(cls[k+1 : len(cls)-1])
+					cls = strings.TrimSpace(cls[:k])
+				}
+				sp.Fields[strings.TrimSpace(parts[0])] = cls
 			}
 		case "property":
 			ps := strings.Fields(rest)
